@@ -254,6 +254,42 @@ func gen(c *ex.Ctx) {
 		}
 	}
 	fmt.Fprintf(&sb, "\n/-- CursorPosition(): the arms of its final select (communication, statements). Empty if the last statement is not a select. -/\ndef cp_select : List (String × List String) := [\n  %s\n]\n", strings.Join(arms, ",\n  "))
+	// 6. every access of the cursor-position request flag in vaxis.go: (function, call as written)
+	var flagOps []string
+	for _, d := range f.Decls {
+		fd, ok := d.(*ast.FuncDecl)
+		if !ok || fd.Body == nil {
+			continue
+		}
+		ast.Inspect(fd.Body, func(n ast.Node) bool {
+			ce, ok := n.(*ast.CallExpr)
+			if !ok {
+				return true
+			}
+			for _, a := range ce.Args {
+				if oneLine(c.Src(a)) == "&vx.reqCursorPos" {
+					flagOps = append(flagOps, fmt.Sprintf("(%s, %s)", ex.LeanStr(fd.Name.Name), ex.LeanStr(oneLine(c.Src(ce)))))
+				}
+			}
+			return true
+		})
+	}
+	fmt.Fprintf(&sb, "\n/-- Every call that takes the address of vx.reqCursorPos, in source order: (function, call). -/\ndef reqFlagOps : List (String × String) := [\n  %s\n]\n", strings.Join(flagOps, ",\n  "))
+	// the condition of the `if` that guards the cursor-position arm of handleSequence (case 'R')
+	cprCond := ""
+	ast.Inspect(hs.Body, func(n ast.Node) bool {
+		cc, ok := n.(*ast.CaseClause)
+		if !ok || len(cc.List) != 1 || c.Src(cc.List[0]) != "'R'" {
+			return true
+		}
+		for _, st := range cc.Body {
+			if is, ok := st.(*ast.IfStmt); ok && cprCond == "" {
+				cprCond = oneLine(c.Src(is.Cond))
+			}
+		}
+		return false
+	})
+	fmt.Fprintf(&sb, "\n/-- Condition of the first `if` of the `case 'R'` arm of handleSequence (\"\" = not recognised). -/\ndef cprCond : String := %s\n", ex.LeanStr(cprCond))
 	sb.WriteString("\nend VaxisModel.Gen.Caps\n")
 	c.Write("Caps.lean", sb.String())
 }
